@@ -7,6 +7,7 @@ call sequences, and computes every expected result from the leaf-set semantics. 
 harness (p_c11.go) embeds each case at the top of the hierarchy and deep down (model leaves
 = real leaf cells) and demands exact equality."""
 import json
+import math
 import random
 
 import vlib
@@ -169,23 +170,43 @@ def run(ctx):
         s = sorted(s)
         return set(s) if n >= len(s) else set(rnd.sample(s, n))
 
+    def pick_budget(pool, K, budget):
+        """First cells (= smallest index of the multiset) whose partitions hold about `budget` cases."""
+        pool = sorted(pool)
+        order = pool[:]
+        rnd.shuffle(order)
+        out, total = set(), 0
+        for c in order:
+            n = len([x for x in pool if x >= c])
+            size = sum(math.comb(n + k - 2, k - 1) for k in range(1, K + 1))
+            if total + size <= budget:
+                out.add(c)
+                total += size
+        return out or {pool[-1]}
+
     # ---- 1. single unions: Normalize, predicates, leaf count, Denormalize, per-cell queries
-    cases = g.cu(2, 2, 1, 3, pick(all2, 3 if q else 42), all2, percell=True,
+    cases = g.cu(2, 2, 1, 3, pick_budget(all2, 3, 1500) if q else all2, all2, percell=True,
                  invariants=["NormalForm"] + ([] if q else ["InterCellLaws", "DenormTheorem"]))
     ctx.replay(cases)
-    cases = g.cu(2, 2, 1, 4, pick(all2, 3 if q else 42), all2, with_empty=False, invariants=["NormalForm"])
+    cases = g.cu(2, 2, 1, 4, pick_budget(all2, 4, 8000) if q else all2, all2, with_empty=False, invariants=["NormalForm"])
     ctx.replay(cases, timeout=1800)
     # cascading sibling merges: all subsets of a pool holding complete sibling groups at every level
-    for i in range(1 if q else 6):
+    for i in range((1 if ctx.seed % 2 else 0) if q else 5):
         L = 3
-        pool = cascade_pool(L, 0, rnd) | set(rnd.sample(all_cells(L, [1]), 1 if q else 2))
-        if q:
-            pool = set(sorted(pool)[:1]) | set(rnd.sample(sorted(pool), 11))
+        pool = cascade_pool(L, 0, rnd) | set(rnd.sample(all_cells(L, [1]), 1))
+        percell = (i == 0 and not q)
+        if q or percell:
+            pool = set(sorted(pool)[:1]) | set(rnd.sample(sorted(pool), 11 if q else 10))
         p = ids(L, pool)
-        cases = g.cu(L, 2, 1, len(p), p, p, strict=True, percell=(i % 2 == 0 and not q), invariants=["NormalForm"])
-        ctx.replay(cases)
+        cases = g.cu(L, 2, 1, len(p), p, p, strict=True, percell=percell, invariants=["NormalForm"])
+        ctx.replay(cases, timeout=1800)
+    # the whole sphere: subsets of the six faces and some of their children
+    if not q or ctx.seed % 2 == 0:
+        c6 = all_cells(1, range(6))
+        p = ids(1, [c for c in c6 if not c[1]] + [(5, (d,)) for d in range(4)] + rnd.sample([c for c in c6 if c[1] and c[0] < 5], 2))
+        ctx.replay(g.cu(1, 6, 1, len(p), p, p, strict=True, percell=True, invariants=["NormalForm"]))
     # ---- 2. pairs: union, intersection (lowerBound skipping), difference recursion, Contains/Intersects/Equal
-    cases = g.cu(2, 1, 2, 2, pick(face0, 2 if q else 21), face0, poolB=face0, with_empty=not q,
+    cases = g.cu(2, 1, 2, 2, pick_budget(face0, 2, 30) if q else face0, face0, poolB=face0, with_empty=not q,
                  invariants=[] if q else ["PairLaws"])
     ctx.replay(cases)
     if not q:
@@ -194,7 +215,7 @@ def run(ctx):
         c1 = ids(1, all_cells(1, [0, 1]))
         ctx.replay(g.cu(1, 2, 2, 3, c1, c1, poolB=c1, invariants=["PairLaws"]))
     # many-cell operands: subsets of two pools inside one subtree (cells nested in / straddling the other union's cells)
-    for i in range(1 if q else 8):
+    for i in range(1 if q else 5):
         L = 3
         f = rnd.randrange(2)
         t = subtree(L, f, [rnd.randrange(4)])
@@ -205,22 +226,22 @@ def run(ctx):
         cases = g.cu(L, 2, 2, n, pa, pa, poolB=pb, strict=True)
         ctx.replay(cases)
     # random larger operands at depth 3
-    for i in range(1 if q else 6):
+    for i in range(1 if q else 4):
         L = 3
         t = subtree(L, 0, [rnd.randrange(4)]) + subtree(L, 1, [rnd.randrange(4), rnd.randrange(4)]) + [(0, ()), (1, ())]
         p = ids(L, t)
-        cases = g.cu(L, 2, 2, 99, p, p, poolB=p, simulate=(400 if q else 4000), simlen=rnd.choice([8, 12, 16]),
+        cases = g.cu(L, 2, 2, 99, p, p, poolB=p, simulate=(400 if q else 2500), simlen=rnd.choice([8, 12, 16]),
                      seed=ctx.seed * 100 + i)
         ctx.replay(cases)
     # ---- 3. multi-way overlaps (s2intersect.Find)
     pool = pick(face0, 4 if q else 8) | {0}
     cases = g.cu(2, 1, 3, 2, pool, pool, poolB=pool, poolC=pool, invariants=["FindLaws"])
     ctx.replay(cases)
-    for i in range(1 if q else 4):
+    for i in range(1 if q else 3):
         L = 3
         t = subtree(L, 0, [rnd.randrange(4)]) + [(0, ()), (1, ()), (1, (2,))]
         p = ids(L, t)
-        cases = g.cu(L, 2, 4, 99, p, p, poolB=p, poolC=p, simulate=(200 if q else 3000), simlen=rnd.choice([8, 12]),
+        cases = g.cu(L, 2, 4, 99, p, p, poolB=p, poolC=p, simulate=(200 if q else 2000), simlen=rnd.choice([8, 12]),
                      seed=ctx.seed * 100 + 50 + i)
         ctx.replay(cases)
     # ---- 4. minimal tilings of leaf ranges, MaxTile
